@@ -312,6 +312,24 @@ func c14Apply(s *ctlsim.Sim, st C14Step, b *c14Batch, mu *sync.Mutex) (accepted 
 // worldOfClient: IngressClass objects currently in the API, for the reference class rule.
 func worldOfClient(s *ctlsim.Sim) *world.World { return s.World }
 
+// c14Handed is a batch that was already handed over and a copy of what it said at that moment.
+type c14Handed struct {
+	k       int
+	got     *convtypes.ChangedObjects
+	links   map[string][]string
+	objects int
+}
+
+func c14CopyLinks(l convtypes.TrackingLinks) map[string][]string {
+	out := map[string][]string{}
+	for ctx, names := range l {
+		if len(names) > 0 {
+			out[string(ctx)] = append([]string(nil), names...)
+		}
+	}
+	return out
+}
+
 func execC14(c C14Case) *Failure {
 	st := getStats("C14")
 	s, err := ctlsim.New(c.Params)
@@ -322,14 +340,19 @@ func execC14(c C14Case) *Failure {
 	cur := newC14Batch()
 	var curG, curT map[string]string
 	k, swaps, cmEvents, transitions, accepted := 0, 0, 0, 0, 0
+	emptyBatches := 0
+	var handed []c14Handed
 	for _, step := range c.Steps {
 		if step.Swap {
 			got := s.Watchers.GetChangedObjects()
 			if f := c14Compare(k, cur, got, curG, curT); f != nil {
 				return f
 			}
+			handed = append(handed, c14Handed{k: k, got: got, links: c14CopyLinks(got.Links), objects: len(got.Objects)})
 			if len(cur.Objects) > 0 {
 				swaps++
+			} else {
+				emptyBatches++
 			}
 			if cur.GNew != nil {
 				curG = cur.GNew
@@ -359,8 +382,19 @@ func execC14(c C14Case) *Failure {
 		if step.Obj.Kind == world.KIngress && step.Ev == "update" && len(cur.Add)+len(cur.Del) > 0 {
 			transitions++
 		}
+		// a batch that was handed over belongs to its reconciliation: events that are
+		// accepted later land in the next batch only
+		for _, h := range handed {
+			if !reflect.DeepEqual(c14CopyLinks(h.got.Links), h.links) || len(h.got.Objects) != h.objects {
+				return failf("C14:handed-batch-changed", "batch %d was handed over with links %v and %d change(s); after a later event (%s %s) it reads links %v and %d change(s)",
+					h.k, h.links, h.objects, step.Ev, step.Obj.Key(), h.got.Links, len(h.got.Objects))
+			}
+		}
 	}
 	labels := []string{"sequential"}
+	if emptyBatches > 0 {
+		labels = append(labels, "empty-batch-taken")
+	}
 	if cmEvents >= 2 {
 		labels = append(labels, "configmap-chain")
 	}
